@@ -132,6 +132,8 @@ pub struct ClientModel {
     // environment
     pub server_up: bool,
     pub plans: VecDeque<Plan>,
+    /// (TCP by host name) resolution currently fails
+    pub name_unresolvable: bool,
     mbap: MbapDeframer,
     rtu_buf: Vec<u8>,
     inbound_eof: Option<Option<String>>, // Some(None)=EOF, Some(Some(kind))=error
@@ -159,6 +161,7 @@ impl ClientModel {
             aborted: false,
             server_up: true,
             plans: VecDeque::new(),
+            name_unresolvable: false,
             mbap: MbapDeframer::default(),
             rtu_buf: Vec::new(),
             inbound_eof: None,
@@ -552,6 +555,11 @@ impl ClientModel {
         match self.transport {
             Transport::Tcp => {
                 self.emit(MState::Connecting);
+                if self.name_unresolvable {
+                    // the host name does not resolve: no TCP connect is made (no plan is consumed)
+                    self.on_connect_failed();
+                    return;
+                }
                 let plan = self.plans.pop_front().unwrap_or(if self.server_up { Plan::Accept } else { Plan::Refuse });
                 match plan {
                     Plan::Accept if self.server_up => self.on_connected(),
